@@ -1442,10 +1442,7 @@ func (m *Machine) Eval(source string, fn func(), ctx context.Context) bool {
 		canceled.Store(true)
 		m.log(LogOps, "[eval:timeout] %s", source)
 		err := fmt.Errorf("%w: eval:%s", ErrEvalTimeout, source)
-		select {
-		case m.errInternal <- err:
-		default:
-		}
+		m.errInternalSend(err)
 		return false
 
 	case <-m.ctx.Done():
@@ -2423,10 +2420,7 @@ func (m *Machine) processHandlers(e *Event) (Result, bool) {
 			m.log(LogOps, "[cancel] (%s) by timeout", j(tx.TargetStates()))
 			m.log(LogDecisions, "[handler:timeout]: %s from %s", methodName, h.id)
 			err := fmt.Errorf("%w: %s from %s", ErrHandlerTimeout, methodName, h.id)
-			select {
-			case m.errInternal <- err:
-			default:
-			}
+			m.errInternalSend(err)
 			timeout = true
 
 			// wait for the handler to exit within HandlerDeadline
@@ -2684,6 +2678,19 @@ func (m *Machine) IsLocal() bool {
 // This method always returns a closed channel for [Api.IsLocal] == false.
 func (m *Machine) ErrInternal() <-chan error {
 	return m.errInternal
+}
+
+// errInternalSend passes [err] to the ErrInternal channel, unless it's full or
+// already closed by a disposal.
+func (m *Machine) errInternalSend(err error) {
+	defer func() {
+		_ = recover()
+	}()
+
+	select {
+	case m.errInternal <- err:
+	default:
+	}
 }
 
 // Clock returns current machine's clock, a state-keyed map of ticks. If states
